@@ -22,6 +22,7 @@ place_demos() {
     case $pk in
       main) d=cmd/keymasterd;;
       certgen) d=lib/certgen;;
+      util) d=lib/client/util;;
       *) d=$(grep -rl "^package $pk\$" --include=*.go . | head -1 | xargs dirname);;
     esac
     cp $f $d/zz_seed_$(basename $f)
